@@ -31,6 +31,25 @@ class MachineryError(Exception):
     pass
 
 
+class TraceOutsideSpec(Exception):
+    """TLC could not EVALUATE a trace module on the observed data (an index outside a sequence, a missing field, a value outside an
+    operator's domain): the observed trace is not a behaviour the specification can even type, let alone accept.  On the unchanged tree
+    every trace module evaluates (vp check); after a change of the code under test this is a rejection, reported as such (exit 1), never
+    swallowed as a machinery failure."""
+
+    def __init__(self, module, trace_path, message):
+        super().__init__("%s: %s" % (module, message))
+        self.module, self.trace_path, self.message = module, trace_path, message
+
+    def __reduce__(self):           # raised inside pool workers too
+        return (TraceOutsideSpec, (self.module, self.trace_path, self.message))
+
+
+_EVAL_ERRORS = ("which is out of bounds", "was not in the domain", "nonexistent field", "Attempted to apply", "Attempted to select",
+                "Attempted to access", "Attempted to compare", "Attempted to check", "CHOOSE x \\in S: P, but no element of S satisfied P",
+                "Attempted to compute")
+
+
 def tier() -> str:
     t = os.environ.get("VERIF_TIER", "quick")
     return t if t in ("quick", "thorough") else "quick"
@@ -132,6 +151,11 @@ def run_tlc(module: str, cfg: str | None = None, *, work: str, env: dict | None 
         f.write(p.stdout)
     if check and not r.ok and not r.invariant_violated and not r.action_prop_violated:
         tail = "\n".join(p.stdout.splitlines()[-25:])
+        tf = (env or {}).get("TRACE_FILE")
+        hit = next((m for m in _EVAL_ERRORS if m in p.stdout), None)
+        if tf and hit and "Parsing or semantic analysis failed" not in p.stdout:
+            # a TRACE module (it reads observed data) that TLC cannot evaluate: the observation is outside the specification's domain
+            raise TraceOutsideSpec(module, str(tf), "TLC cannot evaluate the trace module on the observed data (%s)\n%s" % (hit, tail[-1200:]))
         raise MachineryError("TLC failed on %s (rc=%d):\n%s" % (module, p.returncode, tail))
     return r
 
@@ -147,7 +171,11 @@ def validate(module: str, trace_obj, *, work: str, name: str = "traces", env: di
     r = run_tlc(module, cfg or (module + ".cfg"), work=work, env=ev, workers=1, timeout=timeout, heap=heap)
     summ = r.printed("SUMMARY")
     if not summ:
-        raise MachineryError("no SUMMARY from %s:\n%s" % (module, "\n".join(r.out.splitlines()[-25:])))
+        tail = "\n".join(r.out.splitlines()[-25:])
+        hit = next((m for m in _EVAL_ERRORS if m in r.out), None)
+        if hit:
+            raise TraceOutsideSpec(module, path, "TLC cannot evaluate the trace module on the observed data (%s)\n%s" % (hit, tail[-1200:]))
+        raise MachineryError("no SUMMARY from %s:\n%s" % (module, tail))
     return r.printed("VERDICT"), summ[-1], r
 
 
@@ -213,8 +241,10 @@ def write_replay(pid: str, obj: dict) -> str:
 
 class Report:
     """Collects rejected cases, applies the findings filter, prints the interface lines."""
+    current = None
 
     def __init__(self, pid: str):
+        Report.current = self
         self.pid = pid
         self.t0 = time.time()
         self.violations: list[tuple[str, str]] = []   # (sig, replay path)
@@ -276,6 +306,23 @@ def main_wrap(fn):
     except MachineryError as e:
         print("MACHINERY-FAILURE: %s" % e, file=sys.stderr, flush=True)
         sys.exit(2)
+    except TraceOutsideSpec as e:
+        rep = Report.current
+        if rep is None:
+            print("MACHINERY-FAILURE: %s" % e, file=sys.stderr, flush=True)
+            sys.exit(2)
+        keep = os.path.join(REPLAYS, rep.pid)
+        os.makedirs(keep, exist_ok=True)
+        dst = os.path.join(keep, "outside_spec_" + os.path.basename(e.trace_path))
+        try:
+            import shutil
+            shutil.copy(e.trace_path, dst)
+        except OSError:
+            dst = e.trace_path
+        print("VIOLATION property=%s replay=%s  # TraceOutsideSpecification@%s the observed traces in this file are not behaviours the "
+              "specification can evaluate: %s" % (rep.pid, dst, e.module, " ".join(e.message.split())[:600]), flush=True)
+        print("%s: FAIL tier=%s (trace outside the specification's domain)" % (rep.pid, tier()), flush=True)
+        sys.exit(1)
     except SystemExit:
         raise
     except BaseException as e:      # a crash of the machinery itself is never reported as a verdict (exit 1 is reserved for violations)
